@@ -368,6 +368,24 @@ def status(F, rep):
             rep.add(Finding("STATUS", "STATUS|run_single_test|Passed",
                             "TestResult::Passed is built on a path not dominated by `output.status.success()`",
                             file=f.file, line=ln, fn=f.path))
+    # HARNESSFRESH: the harness that is run was generated from THIS test's source in THIS invocation: the cargo
+    # invocation is dominated by the success edges of code generation and project generation
+    cargo = [bi for bi, t in f.calls() if (callee_name(t) or "").endswith("process::Command::new")]
+    gen_closure = F.closure([p for p in F.fns if p.endswith("IrCodegen::<'a>::try_generate")])
+    pg_closure = F.closure([p for p in F.fns if p.endswith("ProjectGenerator::generate")])
+    dom_all = f.dominators()
+    for what, clo in (("code generation (IrCodegen::try_generate)", gen_closure),
+                      ("project generation (ProjectGenerator::generate)", pg_closure)):
+        callers = [bi for bi, t in f.calls() if (callee_name(t) or "") in clo or
+                   any(x in clo for x in F.closure([callee_name(t)]) if callee_name(t) in F.fns)]
+        ok = bool(cargo) and bool(callers) and all(any(c in dom_all.get(cb, set()) for c in callers) for cb in cargo)
+        rep.oblige("STATUS", "fresh:" + what.split(" ")[0], ok,
+                   sample={"rule": "STATUS", "cargo_invocation_dominated_by": what, "holds": ok})
+        if not ok:
+            rep.add(Finding("STATUS", "STATUS|run_single_test|stale-harness|%s" % what.split(" ")[0],
+                            "the cargo invocation in run_single_test is not dominated by %s: a previously generated "
+                            "harness (possibly for another file's test of the same name) can be run and its verdict "
+                            "reported for this test" % what, file=f.file, line=f.line, fn=f.path))
     # the harness is run with `cargo test`
     from engines import all_string_constants
     strs = [v for _, v in all_string_constants(f)]
